@@ -133,8 +133,8 @@ Definition cmd_rt_pre (top : symtab) (c : smt_cmd) : Prop :=
       exists n, symbol_name_of s = Some n /\ name_ok n = true /\ s = sym_of n (type_of s) /\ ty32 (type_of s)
   | CPush n | CPop n => n < 2 ^ 64
   | CSetOption k v => symbol_name (escape_id v) = Some v
-  | CSetInfo k v => cv = Fix /\ symbol_name (escape_id v) = Some v
-  | CGetUnsatAssumptions => cv = Fix
+  | CSetInfo k v => cv <> Cur /\ symbol_name (escape_id v) = Some v
+  | CGetUnsatAssumptions => cv <> Cur
   | CExit | CCheckSat | CSetLogic _ => True
   end.
 
@@ -156,6 +156,18 @@ Proof.
     - apply (ser_type_arr_item (nst_new top) Hk i d); tauto. }
   destruct (machine_sx (nst_new top) _ _ Hs) as [Hr _]. now rewrite (Hr [] rest I).
 Qed.
+
+Lemma ty32_pos t : ty32 t -> ty_posb t = true.
+Proof.
+  destruct t as [w | i d]; cbn [ty32 ty_posb]; intros H.
+  - assert (E : (w =? 0) = false) by (apply N.eqb_neq; lia). now rewrite E.
+  - assert (E1 : (i =? 0) = false) by (apply N.eqb_neq; lia). assert (E2 : (d =? 0) = false) by (apply N.eqb_neq; lia). now rewrite E1, E2.
+Qed.
+
+(** patches/0018 changes nothing for the sorts the writer emits *)
+Lemma sort_guard {A} t (x : pres A) : ty32 t ->
+  match cv with Fix2 => if ty_posb t then x else PErr | _ => x end = x.
+Proof. intros H. rewrite (ty32_pos t H). destruct cv; reflexivity. Qed.
 
 Lemma name_token n : name_ok n = true -> forall rest, value_token (ltok_of_atom (escape_id n) :: rest) = POk (n, rest).
 Proof.
@@ -189,17 +201,17 @@ Proof.
 Qed.
 
 Lemma body_gua top toks :
-  parse_command_body top "get-unsat-assumptions" toks = match cv with Cur => PErr | Fix => POk (CGetUnsatAssumptions, toks) end.
+  parse_command_body top "get-unsat-assumptions" toks = match cv with Cur => PErr | Fix | Fix2 => POk (CGetUnsatAssumptions, toks) end.
 Proof. reflexivity. Qed.
 
-Lemma cv_cases : cv = Cur \/ cv = Fix.
-Proof. destruct cv; [left | right]; reflexivity. Qed.
+Lemma cv_cases : cv = Cur \/ cv <> Cur.
+Proof. destruct cv; [left; reflexivity | right; discriminate | right; discriminate]. Qed.
 
-Lemma match_cur {A} (a b : A) : cv = Cur -> match cv with Cur => a | Fix => b end = a.
+Lemma match_cur {A} (a b : A) : cv = Cur -> match cv with Cur => a | Fix | Fix2 => b end = a.
 Proof. intros E. rewrite E. reflexivity. Qed.
 
-Lemma match_fix {A} (a b : A) : cv = Fix -> match cv with Cur => a | Fix => b end = b.
-Proof. intros E. rewrite E. reflexivity. Qed.
+Lemma match_fix {A} (a b : A) : cv <> Cur -> match cv with Cur => a | Fix | Fix2 => b end = b.
+Proof. intros E. destruct cv; [now elim E | reflexivity | reflexivity]. Qed.
 
 Lemma any_token v : symbol_name (escape_id v) = Some v ->
   forall rest, any_string_token (ltok_of_atom (escape_id v) :: rest) = POk (v, rest).
@@ -307,7 +319,7 @@ Proof.
     change (String.eqb "declare-const" "assert") with false. change (String.eqb "declare-const" "declare-const") with true. cbv iota.
     rewrite app_nil_r. unfold toks_of_sx at 1. cbn [flatten map ltok_of app].
     rewrite (name_token n Hok). cbn [pbind fst snd].
-    unfold SmtParse.parse_type, SmtParse.parse_eot. rewrite (run_sort top _ [TkClose] Hk Hty). cbn [pbind].
+    unfold SmtParse.parse_type, SmtParse.parse_eot. rewrite (run_sort top _ [TkClose] Hk Hty). cbn [pbind]. rewrite (sort_guard _ _ Hty). cbn [pbind].
     rewrite (mk_symbol_ok n _ Hty). cbn [pbind skip_close next_no_comment fst snd]. now rewrite <- Hs.
   - (* define-fun *)
     destruct Hpre as (Hv & Htv & n & Hn & Hok & Hs & Hty). rewrite Hn in Hser. inversion Hser; subst t.
@@ -323,7 +335,7 @@ Proof.
     rewrite app_nil_r. unfold toks_of_sx at 1 2. cbn [flatten flat_map map ltok_of app].
     rewrite (name_token n Hok). cbn [pbind fst snd skip_open skip_close next_no_comment].
     destruct Hv as (Hwt & Hbu & Hix & Hsy & Hkeys).
-    unfold SmtParse.parse_type, SmtParse.parse_eot. rewrite <- app_assoc. rewrite (run_sort top _ _ Hkeys Hty). cbn [pbind].
+    unfold SmtParse.parse_type, SmtParse.parse_eot. rewrite <- app_assoc. rewrite (run_sort top _ _ Hkeys Hty). cbn [pbind]. rewrite (sort_guard _ _ Hty). cbn [pbind].
     unfold SmtParse.parse_expr_internal, SmtParse.parse_eot. rewrite (run_expr top v false [TkClose] (conj Hwt (conj Hbu (conj Hix (conj Hsy Hkeys))))).
     cbn [pbind]. rewrite (rt_type v false Hwt Hbu), Htv, ty_eqb_refl.
     rewrite (mk_symbol_ok n _ Hty). cbn [pbind skip_close next_no_comment fst snd]. now rewrite <- Hs.
@@ -407,6 +419,24 @@ Theorem parse_cmd_ser_fix :
   forall (top : symtab) (c : smt_cmd) (t : sx),
     cmd_rt_pre Fix top c -> ser_cmd Fix c = Ok t -> parse_command_toks Fix top (toks_of_sx t) = POk (rt_cmd c).
 Proof. exact (parse_cmd_ser_lemma Fix). Qed.
+
+(** [cmd_rt_pre] for a repaired variant, without the conditions on the variant *)
+Definition cmd_rt_pre_fix (v : variant) (top : symtab) (c : smt_cmd) : Prop :=
+  match c with
+  | CCheckSatAssuming es => Forall (expr_rt_ok v top) es
+  | CSetInfo k x => symbol_name (escape_id v x) = Some x
+  | CGetUnsatAssumptions => True
+  | c => cmd_rt_pre v top c
+  end.
+
+Theorem parse_cmd_ser_repaired :
+  forall (v : variant) (top : symtab) (c : smt_cmd) (t : sx),
+    v <> Cur -> cmd_rt_pre_fix v top c -> ser_cmd v c = Ok t -> parse_command_toks v top (toks_of_sx t) = POk (rt_cmd c).
+Proof.
+  intros v top c t Hv Hpre. apply parse_cmd_ser_lemma.
+  destruct c; cbn [cmd_rt_pre_fix cmd_rt_pre] in *; try exact Hpre; try (split; [exact Hv | exact Hpre]); try exact Hv.
+  split; [intros E; now elim Hv | exact Hpre].
+Qed.
 
 (** current code: a symbol named like a numeral hides the index of the writer's own indexed operators;
     repaired: numerals are never looked up *)
